@@ -153,6 +153,12 @@ def mutate_text(text: str, op: int, pos: int, arg: int) -> str:
         return (text + "9") * (10240 // (len(text) + 1) + 1)
     if op == 11:
         return text[:pos]
+    if op == 15:
+        # hour 24 (only legal as 24:00:00 = start of the next day)
+        for a, b in (("T00", "T24"), (" 00:", " 24:"), ("00:00", "24:00"), ("12:00", "24:00"), ("00", "24")):
+            if a in text:
+                return text.replace(a, b, 1)
+        return "24" + text
     return text.swapcase() if op == 12 else text.replace("-", "−") if op == 13 else text + "\x00"
 
 
@@ -208,12 +214,21 @@ def task_hyp(ctx: Ctx, shard: int, n: int) -> None:
     s = sub_seed(ctx.seed, "c08", shard)
     cults = cultures_for(ctx.seed, shard)
     t = T.TYPES[shard % len(T.TYPES)]
-    muts = st.lists(st.tuples(st.integers(0, 14), st.integers(0, 60), st.integers(0, 100)), min_size=3, max_size=8)
+    muts = st.lists(st.tuples(st.integers(0, 15), st.integers(0, 60), st.integers(0, 100)), min_size=3, max_size=8)
     junk = st.lists(st.one_of(st.text(max_size=12), st.sampled_from(["", " ", "\x00", "-", "+", "9" * 40, "٣٣٣٣-٠١-٠١", "−05:00", "T", "Z", "24:00:00", "2000-02-30", "-9999-01-01", "-9999-01-31", "99999-01-01", "12:60", "0000-00-00", "13:00 PM", "19", "+18:00:01", "+19", "-18:01"])), max_size=3)
 
     def body(pat_any, pat_valid, panel_ix, cname, v, tmpl, m, extra, use_tmpl):
         ctx.case("create", {"type": t, "pattern": pat_any, "culture": cname})
         panel = PARSE_PANEL[t]
+        if t in ("datetime", "instant") and panel_ix % 3 == 0:
+            # the last / first representable day at midnight (hour 24 and similar roll-overs leave the range)
+            if t == "instant":
+                v = {"i": (2932896 if panel_ix % 2 else -4371222) * T.DAY}
+            else:
+                from harness import pyo as _pyo
+
+                cc = _pyo.cal(v["cal"])
+                v = {"cal": v["cal"], "n": cc._max_days if panel_ix % 2 else cc._min_days, "ns": 0}
         for pattern in (panel[panel_ix % len(panel)], pat_valid, pat_any):
             case = {"type": t, "pattern": pattern, "culture": cname, "value": v, "muts": [list(x) for x in m], "extra": extra}
             if use_tmpl:
@@ -244,13 +259,13 @@ def task_panel(ctx: Ctx) -> None:
     vals = {
         "date": [{"cal": "ISO", "n": 0}, {"cal": "ISO", "n": 19782}, {"cal": "Hebrew Civil", "n": 19782}, {"cal": "Persian Simple", "n": 19000}, {"cal": "Julian", "n": -800000}],
         "time": [{"ns": 0}, {"ns": 86399999999999}, {"ns": 45296789012345}],
-        "datetime": [{"cal": "ISO", "n": 19782, "ns": 45296789012345}, {"cal": "Coptic", "n": 100, "ns": 0}],
-        "instant": [{"i": 0}, {"i": 1709251200123456789}, {"i": T.INST_MIN}, {"i": T.INST_MAX}],
+        "datetime": [{"cal": "ISO", "n": 19782, "ns": 45296789012345}, {"cal": "Coptic", "n": 100, "ns": 0}, {"cal": "ISO", "n": 2932896, "ns": 0}, {"cal": "ISO", "n": -4371222, "ns": 0}, {"cal": "Um Al Qura", "n": 39401, "ns": 0}],
+        "instant": [{"i": 0}, {"i": 1709251200123456789}, {"i": T.INST_MIN}, {"i": T.INST_MAX}, {"i": 2932896 * T.DAY}],
         "offset": [{"s": 0}, {"s": 64800}, {"s": -64799}, {"s": 19800}],
         "duration": [{"ns": 0}, {"ns": -1}, {"ns": T.DUR_MAX}, {"ns": T.DUR_MIN}, {"ns": 93784005006007}],
         "annual": [{"m": 2, "d": 29}, {"m": 12, "d": 31}],
     }
-    muts = [[op, pos, arg] for op in range(15) for pos, arg in ((0, 0), (3, 1), (7, 4), (11, 9))]
+    muts = [[op, pos, arg] for op in range(16) for pos, arg in ((0, 0), (3, 1), (7, 4), (11, 9))]
     for t in T.TYPES:
         for pattern in PARSE_PANEL[t]:
             for cname in cults:
